@@ -565,6 +565,8 @@ structure Seq where
   loopEndTime : Rat := -1
   invDelta : Frac := { n := 1, d := 1 }
   tempo : Frac := { n := 1, d := 1 }
+  beginTempo : Frac := { n := 0, d := 1 }        -- m_trackBeginTempo (restored by rewind)
+  loopBeginTempo : Frac := { n := 0, d := 1 }    -- m_loopBeginTempo (restored by a jump to the loop start)
   tempoMult : Rat := 1
   atEnd : Bool := false
   loopCount : Int := -1
@@ -631,7 +633,7 @@ def loadTracks (s : Seq) (fmt : Fmt) (smfFormat : Nat) (deltaTicks : Nat) (raw :
         if !invalid && !cur.track.isEmpty then (scanLoopBegin tracks ls ((tracks.map List.length).sum + 2) cur).getD cur else cur
       .ok (some { s with
         fmt := fmt, smfFormat := smfFormat, tracks := tracks, cur := cur, beginPos := cur, loopBegin := loopBegin,
-        fullLen := fadd full s.postWait, loopStartTime := ls, loopEndTime := le, invDelta := invDelta, tempo := tempo0,
+        fullLen := fadd full s.postWait, loopStartTime := ls, loopEndTime := le, invDelta := invDelta, tempo := tempo0, beginTempo := tempo0, loopBeginTempo := tempo0,
         atEnd := false,
         loop := { caughtStart := false, invalidLoop := invalid, loopsCount := s.loopCount, loopsLeft := s.loopCount, stackLevel := -1,
                   stack := b.stack.map fun e => { infinity := e.infinity, loops := e.loops } },
@@ -860,9 +862,9 @@ def loopTail (s : Seq) (notFound : Bool) : Seq × List Out :=
   if !s.loopEnabled || (notFound && s.loop.loopsCount ≥ 0 && s.loop.loopsLeft < 1) || s.loopHooksOnly then
     ({ s with atEnd := true, cur := { s.cur with wait := fadd s.cur.wait s.postWait } }, outs)
   else if s.loop.temporaryBroken then
-    ({ s with cur := s.beginPos, loop := { s.loop with temporaryBroken := false } }, outs)
+    ({ s with cur := s.beginPos, tempo := s.beginTempo, loop := { s.loop with temporaryBroken := false } }, outs)
   else if s.loop.loopsCount < 0 || s.loop.loopsLeft ≥ 1 then
-    ({ s with cur := s.loopBegin, loop := if s.loop.loopsCount ≥ 1 then { s.loop with loopsLeft := s.loop.loopsLeft - 1 } else s.loop }, outs)
+    ({ s with cur := s.loopBegin, tempo := s.loopBeginTempo, loop := if s.loop.loopsCount ≥ 1 then { s.loop with loopsLeft := s.loop.loopsLeft - 1 } else s.loop }, outs)
   else (s, outs)
 
 /-- processEvents: (continue?, state, outputs) -/
@@ -871,6 +873,7 @@ def processEvents (s : Seq) (isSeek : Bool) : Bool × Seq × List Out :=
   if s.atEnd then (false, s, []) else
   let s := { s with loop := { s.loop with caughtEnd := false } }
   let rowBegin := s.cur
+  let rowBeginTempo := s.tempo
   let r := tracksPass isSeek (s.cur.track.length + 1) 0 { s := s }
   let s := r.s
   let live := s.cur.track.filter (·.last ≥ 0)
@@ -880,6 +883,7 @@ def processEvents (s : Seq) (isSeek : Bool) : Bool × Seq × List Out :=
   let s := { s with cur := { s.cur with track := s.cur.track.map fun (t : TrackPos) => { t with delay := (t.delay + W - sd) % W } } }
   let tval : Rat := match Frac.scale sd s.tempo with | .ok t => t.value | .error _ => 0
   let s := { s with cur := { s.cur with wait := fadd s.cur.wait tval } }
+  let s := if r.nStart > 0 then { s with loopBeginTempo := rowBeginTempo } else s
   let s := if r.nStart > 0 && s.loopBegin.absTime ≤ 0 then { s with loopBegin := rowBegin } else s
   if r.nStackStart > 0 then (true, { s with loop := stackUpN r.nStackStart s.loop rowBegin }, r.outs) else
   let s := if r.nStackBreaks > 0 then { s with loop := stackBreakN r.nStackBreaks s.loop } else s
@@ -912,7 +916,7 @@ def tick (s : Seq) (sec gran : Rat) (fuel : Nat) : Seq × List Out × Rat :=
   (s, outs.reverse.flatten, if s.cur.wait < 0 then 0 else fdiv s.cur.wait s.tempoMult)
 
 def rewind (s : Seq) : Seq :=
-  { s with cur := s.beginPos, atEnd := false,
+  { s with cur := s.beginPos, tempo := s.beginTempo, atEnd := false,
            loop := { ({ s.loop with loopsCount := s.loopCount } : Loop).reset with caughtStart := true, temporaryBroken := false } }
 
 def seekInner (half : Rat) : Nat → Nat → Rat → Seq → List (List Out) → Seq × List (List Out) × Nat
